@@ -68,7 +68,8 @@ fn main() {
         "tables" => obs::dump_tables(),
         "play" => play::run_play(&args),
         "fens" => play::run_fens(&args),
-        "fenmut" => fenmut::run(&args),
+        "replay" => play::run_replay(&args),
+        "fenmut" | "variants" => fenmut::run(&args),
         "search" => searchdrv::run(&args),
         "tree" => tree::run(&args),
         other => {
